@@ -110,6 +110,10 @@ func main() {
 	for _, p := range pkgs {
 		collectAddrTaken(p)
 		collectMethods(p)
+		collectSubmitters(p)
+		if p.name == "router" {
+			collectConsts(p)
+		}
 	}
 	for _, p := range pkgs {
 		for _, f := range p.files {
@@ -644,8 +648,19 @@ func (w *walker) goEntry(target string, pos token.Pos) {
 		case "ConnectRawSocketPeer", "ConnectWebsocketPeer":
 			kind = "KClientSide"
 		}
-	case short == "run" || short == "metaProcedureHandler":
-		kind = "-" // classified by the channel it ranges over
+	case short == "metaProcedureHandler":
+		kind = "KMetaProc"
+	case short == "run":
+		switch strings.TrimSuffix(target, ".run") {
+		case "broker":
+			kind = "KBroker"
+		case "dealer":
+			kind = "KDealer"
+		case "realm":
+			kind = "KRealm"
+		case "router":
+			kind = "KRouter"
+		}
 	case short == "logMemStats":
 		kind = "KMemStats"
 	case short == "recvHandler":
@@ -686,6 +701,9 @@ func (w *walker) cond(e ast.Expr) {
 	// test of a `closed` bool flag
 	found := false
 	ast.Inspect(e, func(n ast.Node) bool {
+		if _, isLit := n.(*ast.FuncLit); isLit {
+			return false
+		}
 		if se, ok := n.(*ast.SelectorExpr); ok && se.Sel.Name == "closed" {
 			if t := w.p.info.TypeOf(se); t != nil {
 				if b, ok := t.Underlying().(*types.Basic); ok && b.Kind() == types.Bool {
@@ -943,6 +961,14 @@ func (w *walker) chanRoleQuiet(e ast.Expr) string {
 		case "metaDone":
 			if owner == "realm" {
 				return "RMetaDone"
+			}
+		case "metaStop":
+			if owner == "realm" {
+				return "RMetaStop"
+			}
+		case "quit":
+			if owner == "router" {
+				return "RRouterQuit"
 			}
 		case "stopMemStats", "memStatsStopped":
 			if owner == "router" {
@@ -1228,6 +1254,24 @@ func (w *walker) call(c *ast.CallExpr) {
 			}
 		}
 	}
+	if tgt := w.staticCallee(c); tgt != "" {
+		if sb, ok := submitters[tgt]; ok && sb.param < len(c.Args) {
+			if fl, ok := c.Args[sb.param].(*ast.FuncLit); ok {
+				// helper(func(){...}) where helper sends its parameter on an action
+				// channel: the literal is a closure submitted to that goroutine.
+				for i, a := range c.Args {
+					if i != sb.param {
+						w.expr(a)
+					}
+				}
+				name := w.closure(fl)
+				w.emit(Op{Kind: "OSubmit", Role: sb.role, Callee: name, Txt: w.text(c.Fun) + "(func)"}, c.Pos())
+				entries = append(entries, [2]string{name, actionKind(sb.role)})
+				w.emit(Op{Kind: "OCall", Role: "RNone", Callee: tgt, Txt: w.text(c.Fun)}, c.Pos())
+				return
+			}
+		}
+	}
 	for _, a := range c.Args {
 		w.expr(a)
 	}
@@ -1260,6 +1304,73 @@ func (w *walker) call(c *ast.CallExpr) {
 	}
 	for _, name := range addrOf[sigKey(sig)] {
 		w.emit(Op{Kind: "OCall", Role: "RNone", Callee: name, Txt: w.text(c.Fun)}, c.Pos())
+	}
+}
+
+// submitters: functions that send one of their func-typed parameters on an
+// action channel (e.g. router.submit): function name -> (parameter index, role).
+type submitter struct {
+	param int
+	role  string
+}
+
+var submitters = map[string]submitter{}
+
+func collectSubmitters(p *pkgInfo) {
+	for _, f := range p.files {
+		for _, d := range f.Decls {
+			fd, ok := d.(*ast.FuncDecl)
+			if !ok || fd.Body == nil {
+				continue
+			}
+			obj := p.info.Defs[fd.Name].(*types.Func)
+			var params []types.Object
+			for _, fl := range fd.Type.Params.List {
+				for _, n := range fl.Names {
+					params = append(params, p.info.Defs[n])
+				}
+			}
+			w := &walker{p: p, cur: &Func{Name: funcObjName(obj)}, locals: map[types.Object]bool{}, alias: map[types.Object]string{}, closures: map[types.Object]string{}}
+			ast.Inspect(fd.Body, func(n ast.Node) bool {
+				ss, ok := n.(*ast.SendStmt)
+				if !ok {
+					return true
+				}
+				id, ok := ss.Value.(*ast.Ident)
+				if !ok {
+					return true
+				}
+				role := w.chanRoleQuiet(ss.Chan)
+				if actionKind(role) == "" {
+					return true
+				}
+				for i, po := range params {
+					if po != nil && p.info.Uses[id] == po {
+						submitters[funcObjName(obj)] = submitter{i, role}
+					}
+				}
+				return true
+			})
+		}
+	}
+}
+
+// constMs: package-level time.Duration constants of the router package, in ms.
+var constMs = map[string]int64{}
+
+func collectConsts(p *pkgInfo) {
+	for _, name := range []string{"sendResultDeadline", "yieldRetryDelay"} {
+		obj := p.pkg.Scope().Lookup(name)
+		c, ok := obj.(*types.Const)
+		if !ok {
+			if p.name == "router" {
+				fatal = append(fatal, "constant "+name+" not found in package router")
+			}
+			continue
+		}
+		if v, ok := constant.Int64Val(constant.ToInt(c.Val())); ok {
+			constMs[name] = v / 1000000
+		}
 	}
 }
 
@@ -1445,6 +1556,13 @@ func emit() string {
 	pairs("gen_entries : list (string * gkind)", entries, func(s string) string { return s })
 	pairs("gen_dispatch : list (string * string)", dedup2(dispatch), q)
 	pairs("gen_meta_inbound : list (string * string)", dedup2(metaIn), q)
+	var subs []string
+	for n := range submitters {
+		subs = append(subs, q(n))
+	}
+	sort.Strings(subs)
+	b.WriteString("Definition gen_submitters : list string := [" + strings.Join(subs, "; ") + "].\n\n")
+	fmt.Fprintf(&b, "Definition gen_send_result_deadline_ms : N := %d.\nDefinition gen_yield_retry_delay_ms : N := %d.\n\n", constMs["sendResultDeadline"], constMs["yieldRetryDelay"])
 	fmt.Fprintf(&b, "Definition gen_queue_makes : list (string * string * string) := [\n")
 	for i, m := range makes {
 		sep := ";"
